@@ -56,6 +56,12 @@ CHECKS = {
             "CleanDelivers and enumerates 76 record classes (7 types x id/seqnum boundary values x payload lengths around the Noise "
             "packet limit x subprotocol names); every class is round-tripped and every (fault, position) executed on real "
             "DilatedConnectionProtocol pairs under four fragmentations; DilationL2Obs.tla decides", "3/C12"),
+    "C15": ("DilationFlow.tla: Outbound's pause flag / rotating deque / paused+unpaused sets with the resume loop modelled one "
+            "iteration per step so that transport pause/resume, register/unregister and subchannel close occur inside a "
+            "producer's turn; Inbound's pause set across connections; TLC checks ThreeSets / AllPausedWhenPaused / NoConnMeansPaused "
+            "/ NoResumeWhilePaused / AllResumedAfterDrain / RotationFair / InboundExact / InboundCarried / LoopTerminates; "
+            "behaviours are replayed on the real Outbound and Inbound with producers that perform the scripted re-entrant actions; "
+            "DilationFlowObs.tla decides", "3/C15"),
     "C19": ("Codes.tla over a frozen copy of the PGP word lists: TLC checks that each list is a bijection from bytes and that every "
             "completion extends the typed prefix and is allocatable, and enumerates every typed prefix / short code string; the real "
             "get_completions / choose_words / validate_code are run on every enumerated case; the code-entry protocol (one of "
@@ -118,6 +124,8 @@ NOTES = {
     "C13": "runs over one reliable connection (C10 is the interface); <=2 subchannels, <=2 writes per end in TLC",
     "C12": "noiseprotocol is not installed: harness/stubs/noise stands in (real ChaCha20-Poly1305, 65535-byte limit); truncated tokens "
            "and absurd length prefixes leave the receiver waiting and are not required to drop",
+    "C15": "2 (thorough: 3) producers, <=4 transport signals in TLC; producers and the L2 connection are recording stand-ins, "
+           "Outbound/Inbound/PullToPush/Cooperator are real",
     "C19": "the word lists in the spec are a frozen copy of the pinned commit; os.urandom is assumed uniform; TLC enumerates all "
            "prefixes of all words for 2 (thorough: 3) word codes; code-entry schedules as for the mailbox checks",
     "C20": "field values are abstracted to JSON kinds (str/int/float/bool/null/list/dict/missing) with a few concrete "
